@@ -330,6 +330,13 @@ InstConst(i, n, b) ==
         /\ UNCHANGED <<cdict>>
         /\ Rec("instconst", [i |-> i, n |-> n, b |-> b], "ok", P', cdict, cells', I', {})
 
+\* two nested `with shared_parameters():` blocks are entered and left (an instance made inside them is thrown away):
+\* afterwards instantiate=True defaults are copied per instance again
+SharedBlocks ==
+  /\ "shared" \in Acts /\ Step /\ ~EditOpen
+  /\ UNCHANGED <<P, cdict, cells, I>>
+  /\ Rec("sharedblocks", <<>>, "ok", P, cdict, cells, I, {})
+
 \* `i.param.trigger(n)`: watchers run, nothing else changes -- in particular an instance that never set n keeps
 \* following the class (known finding: the implementation re-assigns the current value, which pins it)
 InstTrigger(i, n) ==
@@ -397,6 +404,7 @@ Next ==
   \/ \E c \in CSet, n \in Names : ClassObjsAppend(c, n, 3)
   \/ \E c \in CSet, n \in AllNames : \E b \in {1, 2} : ClassMeta(c, n, b)
   \/ \E i \in 1..MaxInst, n \in AllNames, b \in BOOLEAN : InstConst(i, n, b)
+  \/ SharedBlocks
   \/ \E i \in 1..MaxInst, n \in Names : InstTrigger(i, n)
   \/ \E i \in 1..MaxInst, n \in Names : \E v \in IntVals : InstUpdCtx(i, n, v)
   \/ \E i \in 1..MaxInst, n \in AllNames : MutateInst(i, n)
